@@ -56,6 +56,19 @@ C['C12']=dict(engine="vsched", design="DESIGN.md §6 C12",
   technique="delay-bounded exhaustive schedule exploration (every schedule with at most 3, thorough 4, departures from the deterministic default scheduler) of six client/Stop scenarios on the real collector over the in-memory network; deadlock, leak, WaitGroup-misuse, crash and in-model data-race detection",
   text="Two and three TCP clients, a client dying mid-message, two UDP remotes, each also against a concurrent Stop: per connection the deliveries equal (with Stop: are a prefix of) what was sent, in order, decoded correctly; the connection count returns to zero; Stop returns in every schedule; the instant it returns no goroutine started by the collector is alive, afterwards the socket is closed and nothing more is delivered; no data race in any explored schedule.",
   note="Trusted: vsched/vnet models. About 10 threads per scenario make preemption bounding infeasible, so the bound counts delays (Emmi-Qadeer-Rakamaric): a polynomial, still exhaustive-within-bound space. TLS not under the scheduler. The scenario begins once Start() has finished initialising. <= 3 clients.")
+
+C['C15']=dict(engine="xplore", design="DESIGN.md §6 C15",
+  technique="exhaustive value enumeration (all 8/16-bit values, boundary families, every float exponent, every string length in the tier's set) through the real encoder and decoder against an RFC 7011 reference encoding",
+  text="Every value of the 8- and 16-bit types, ~400 boundary values per wide integer/date type, every float exponent x 6 mantissas x sign, address patterns, fixed octet arrays of 7 lengths and every string/octet-array length 0..600, every 251st and 64900..65535 (thorough: every length 0..65535) is encoded between sentinel fields through both record constructors, compared byte-for-byte with the reference encoding, and decoded back (field-length reader + element decoder directly, and through a whole message when it fits) to the same bits; value-less (template) element construction is exercised for every type.",
+  note="Trusted: the reference encodings written from the RFC in the harness. Wide numeric types are covered on boundary families, not on all 2^32/2^64 values.")
+C['C16']=dict(engine="xplore", design="DESIGN.md §6 C16",
+  technique="bounded-exhaustive enumeration of builder operation histories on a real encoding set against reference serialisations, all three add paths and post-reset behaviour compared with the same reference bytes",
+  text="Every well-formed history up to depth 5 (thorough 6) over 23 operations (4 prepares, 4 add variants x 4 element lists incl. one element of every encodable type and a 300-byte string, UpdateLenInHeader, ResetSet, an add that must be refused): after each step set length = 4 + sum of record lengths = bytes serialised by CreateIPFIXMsg, every record buffer equals its reported length and the refcodec encoding, header length correct after UpdateLenInHeader.",
+  note="Trusted: refcodec. Encoding sets only (a decoding set is never serialised).")
+C['C17']=dict(engine="xplore", design="DESIGN.md §6 C17",
+  technique="exhaustive enumeration of templates (arity 1..4, thorough 5, over 7 known/unknown element kinds at every position) x value shapes x 3 decoding modes on the real collector against the refcodec/tmplstore reference",
+  text="All 2800 (thorough 19607) templates x variable-length rotations over {0,1,254,255,300} x 1-2 records x {strict, keep, drop}, each also after an earlier valid definition of the same id: strict rejects the template, forgets the older one and rejects the data; keep delivers every unknown field as an octet array with exactly the received bytes; drop omits exactly the unknown fields; known fields always decode to their reference value.",
+  note="Trusted: refcodec/colmodel. Unknown kinds: IANA and enterprise, fixed and variable, unknown id in a known enterprise.")
 checks=[]
 for pid in sorted(C):
     c=C[pid]
